@@ -137,6 +137,13 @@ Definition projcov_ok (T : F) (lams scs : vec) (G : mat) : bool :=
     if Nat.eqb i j then absle (nthv i scs * g - nthv i lams) (d_orth * T)
     else (nthv i scs * nthv j scs * (g * g)) <=? (d_orth * T) * (d_orth * T)) idx) idx.
 
+(* --- conjunct 5b: the same test on what `predict` actually returned for the training rows:
+       the sample covariance S of the score rows Z (m columns) is diag(lambda) (identity when whitened) --- *)
+Definition scorecov_ok (n : N) (T : F) (lams scs : vec) (Z : mat) : bool :=
+  let m := length lams in
+  N.eqb (N.of_nat (length Z)) n && forallb (fun z => Nat.eqb (length z) m) Z &&
+  projcov_ok T lams scs (cov n m Z).
+
 (* --- conjunct 6/7: accessors --- *)
 Definition ev_ok (lams ev : vec) : bool :=
   Nat.eqb (length ev) (length lams) &&
@@ -227,12 +234,13 @@ Definition inverse_ok (p : nat) (W : mat) (mu : vec) (cs invs : mat) : bool :=
 Record checks := mkchecks {
   k_mean : bool; k_shape : bool; k_sigma : bool; k_orth : bool; k_projcov : bool; k_ev : bool;
   k_ratio : bool; k_roundtrip : bool; k_resid : bool; k_coefs : bool; k_bound : bool;
+  k_scores : bool;
   k_T : F;    (* trace of the sample covariance *)
   k_M : mat   (* the matrix handed to the deflation certificate *)
 }.
 
 Definition pca_checks (n : N) (p : nat) (k : N) (whiten : bool) (X : mat)
-           (mu sg : vec) (W : mat) (ev evr : vec) (Qs invs : mat) : checks :=
+           (mu sg : vec) (W : mat) (ev evr : vec) (Qs invs Zs : mat) : checks :=
   let C := cov n p X in
   let T := trace C in
   let lams := lams_of n sg in
@@ -245,7 +253,7 @@ Definition pca_checks (n : N) (p : nat) (k : N) (whiten : bool) (X : mat)
   mkchecks (mean_ok n p X mu) (shape_ok p k sg W) (sigma_ok sg) (orth_ok scs W)
            (projcov_ok T lams scs G) (ev_ok lams ev) (ratio_ok ev evr)
            (roundtrip_ok p scs W mu Qs invs) (resid_ok T lams W CW) (coefs_ok cf)
-           (bound_ok k T mu0 shift cf scs W G) T (Mlead p C shift cf W).
+           (bound_ok k T mu0 shift cf scs W G) (scorecov_ok n T lams scs Zs) T (Mlead p C shift cf W).
 End Chk.
 
 (* ------------------------------------------------------------------------------------------ *)
